@@ -161,11 +161,20 @@ func exploreBlock(c *xs.Ctx, r *xs.Result, hi int, rec *prodRec, k *pooled, only
 	var f *vnode.Node
 	var clean poolView
 	var cleanD string
+	// warm = the follower has already verified and pooled the unaltered block once and lost it again through a rollback of
+	// its last momentum (what adopting a side chain does to the pool) before the variant arrives: anything the node
+	// remembers about a hash it has seen must not make a second form of that hash acceptable.
+	warm := false
 	fresh := func() {
 		if f != nil {
 			f.Destroy()
 		}
-		f = rec.follower(c, k)
+		if warm {
+			f = rec.followerWarm(c, k)
+			r.Count("warm_followers_built", 1)
+		} else {
+			f = rec.follower(c, k)
+		}
 		clean, cleanD = viewPool(f), f.FullDigest()
 		r.Count("followers_built", 1)
 	}
@@ -176,159 +185,180 @@ func exploreBlock(c *xs.Ctx, r *xs.Result, hi int, rec *prodRec, k *pooled, only
 		}
 	}()
 	ident := fmt.Sprintf("%s/%d", k.Block.Address, k.Block.Height)
-	for _, v := range vs {
-		if only != "" && v.Name != only {
-			continue
-		}
-		if c.Expired() {
-			r.Incomplete = true
-			r.Note("deadline reached in history %d block %d", hi, k.Idx)
-			return
-		}
-		r.Count("states", 1)
-		r.Sample(map[string]interface{}{"history": hi, "block": ident, "class": class, "variant": v.Name, "flavour": v.Flavor})
-		r.Add("variant_fields", class+":"+rootGroup(class, v)+"/"+v.Flavor)
-		V := vnode.CloneBlock(k.Block)
-		v.Mut(V)
-		if bytes.Equal(mustSer(V), k.Bytes) {
-			r.Count("variants_identical_to_original", 1)
-			continue
-		}
-		sameHash := V.Hash == k.Block.Hash
-		w, err := wireBlocks([]*nom.AccountBlock{V})
-		if err != nil {
-			r.Count("variants_not_encodable_on_wire", 1)
-			r.Add("outcomes", class+":"+rootGroup(class, v)+"/"+v.Flavor+":unencodable")
-			continue
-		}
-		rep := replayB{"B", hi, k.Idx, v.Name, 0}
-		where := fmt.Sprintf("history %d [%s], block %d (%s, account %s height %d, pooled at momentum height %d), variant %s", hi, ops.Hist(rec.Hist), k.Idx, detail, k.Block.Address, k.Block.Height, k.HP, v.Name)
-		aerr, pan := f.AddAccountBlocks(w)
-		r.Count("transitions", 1)
-		if pan != nil {
-			r.Violate("C13:"+class+":"+rootGroup(class, v)+"-altered:delivery-panics", where+": AddAccountBlocks panicked: "+fmt.Sprint(pan), rep)
+	passes := []bool{false}
+	if k.HP >= 2 {
+		passes = append(passes, true)
+	}
+	for _, warmPass := range passes {
+		if warmPass {
+			warm = true
 			fresh()
-			continue
 		}
-		after := viewPool(f)
-		if after.equal(clean) {
-			// refused (or ignored): nothing may have changed
-			if d := f.FullDigest(); d != cleanD {
-				r.Violate("C13:"+class+":"+rootGroup(class, v)+"-altered:refused-variant-changes-store", where+": the variant was refused but the follower's store changed", rep)
+		for _, v := range vs {
+			if only != "" && v.Name != strings.TrimSuffix(only, "@warm") {
+				continue
+			}
+			if only != "" && warmPass != strings.HasSuffix(only, "@warm") {
+				continue
+			}
+			if c.Expired() {
+				r.Incomplete = true
+				r.Note("deadline reached in history %d block %d", hi, k.Idx)
+				return
+			}
+			r.Count("states", 1)
+			r.Sample(map[string]interface{}{"history": hi, "block": ident, "class": class, "variant": v.Name, "flavour": v.Flavor})
+			r.Add("variant_fields", class+":"+rootGroup(class, v)+"/"+v.Flavor)
+			V := vnode.CloneBlock(k.Block)
+			v.Mut(V)
+			if bytes.Equal(mustSer(V), k.Bytes) {
+				r.Count("variants_identical_to_original", 1)
+				continue
+			}
+			sameHash := V.Hash == k.Block.Hash
+			if warmPass && (!sameHash || v.Flavor == "resign") {
+				continue // another block: what the node remembers about B's hash cannot matter
+			}
+			w, err := wireBlocks([]*nom.AccountBlock{V})
+			if err != nil {
+				r.Count("variants_not_encodable_on_wire", 1)
+				r.Add("outcomes", class+":"+rootGroup(class, v)+"/"+v.Flavor+":unencodable")
+				continue
+			}
+			rep := replayB{"B", hi, k.Idx, v.Name, 0}
+			where := fmt.Sprintf("history %d [%s], block %d (%s, account %s height %d, pooled at momentum height %d), variant %s", hi, ops.Hist(rec.Hist), k.Idx, detail, k.Block.Address, k.Block.Height, k.HP, v.Name)
+			if warmPass {
+				rep.Variant += "@warm"
+				where += " delivered after the follower had pooled the unaltered block and lost it again in a rollback of its last momentum"
+				r.Count("warm_variants_delivered", 1)
+			}
+			aerr, pan := f.AddAccountBlocks(w)
+			r.Count("transitions", 1)
+			if pan != nil {
+				r.Violate("C13:"+class+":"+rootGroup(class, v)+"-altered:delivery-panics", where+": AddAccountBlocks panicked: "+fmt.Sprint(pan), rep)
 				fresh()
 				continue
 			}
-			r.Count("variants_refused", 1)
-			reason := "ignored"
-			if aerr != nil {
-				reason = errClass(aerr)
-			}
-			r.Add("refusal_reasons", reason)
-			r.Add("outcomes", class+":"+rootGroup(class, v)+"/"+v.Flavor+":refused")
-			if strings.Contains(reason, "VM panic") {
-				r.Add("vm_panic_variants", class+":"+rootGroup(class, v)+"/"+v.Flavor)
-			}
-			callData(r, k.Block, V, v, "refused("+reason+")")
-			continue
-		}
-		// accepted: something entered the pool
-		r.Count("variants_accepted", 1)
-		// a block's hash pins down its stored bytes: whatever was stored must hash to the hash it is stored under
-		hashMismatch := false
-		for key, val := range after {
-			if _, had := clean[key]; had {
+			after := viewPool(f)
+			if after.equal(clean) {
+				// refused (or ignored): nothing may have changed
+				if d := f.FullDigest(); d != cleanD {
+					r.Violate("C13:"+class+":"+rootGroup(class, v)+"-altered:refused-variant-changes-store", where+": the variant was refused but the follower's store changed", rep)
+					fresh()
+					continue
+				}
+				r.Count("variants_refused", 1)
+				reason := "ignored"
+				if aerr != nil {
+					reason = errClass(aerr)
+				}
+				r.Add("refusal_reasons", reason)
+				r.Add("outcomes", class+":"+rootGroup(class, v)+"/"+v.Flavor+":refused")
+				if strings.Contains(reason, "VM panic") {
+					r.Add("vm_panic_variants", class+":"+rootGroup(class, v)+"/"+v.Flavor)
+				}
+				callData(r, k.Block, V, v, "refused("+reason+")")
 				continue
 			}
-			sb, derr := nom.DeserializeAccountBlock(val)
-			if derr != nil || sb.ComputeHash() != sb.Hash {
-				r.Violate("C13:"+class+":"+rootGroup(class, v)+"-altered:stored-bytes-do-not-hash-to-stored-hash", where+fmt.Sprintf(": the follower accepted the block and stores, under hash %v (%s), bytes whose hash is different (stored data %x, delivered data %x)", V.Hash, key, sbData(sb), V.Data), rep)
-				hashMismatch = true
-			}
-		}
-		if hashMismatch {
-			fresh()
-			continue
-		}
-		if !sameHash || v.Flavor == "resign" {
-			// a different block (other hash) signed by the key holder, or one whose hash moved: not a second variant of B.
-			// What matters here is only the call-data question: is non-canonical call data stored?
-			st := after[fmt.Sprintf("%s/%d", V.Address, V.Height)]
-			r.Add("outcomes", class+":"+rootGroup(class, v)+"/"+v.Flavor+":other-block-accepted")
-			if strings.HasPrefix(v.Field, "Data-abi-same-args") && st != nil {
-				sb, _ := nom.DeserializeAccountBlock(st)
-				if !bytes.Equal(sb.Data, k.Block.Data) {
-					r.Violate("C13:user-call:non-canonical-call-data:accepted-and-stored", where+fmt.Sprintf(": a block signed by the account over call data %x (same decoded arguments as the canonical %x) was accepted and stored with the non-canonical bytes", V.Data, k.Block.Data), rep)
+			// accepted: something entered the pool
+			r.Count("variants_accepted", 1)
+			// a block's hash pins down its stored bytes: whatever was stored must hash to the hash it is stored under
+			hashMismatch := false
+			for key, val := range after {
+				if _, had := clean[key]; had {
+					continue
+				}
+				sb, derr := nom.DeserializeAccountBlock(val)
+				if derr != nil || sb.ComputeHash() != sb.Hash {
+					r.Violate("C13:"+class+":"+rootGroup(class, v)+"-altered:stored-bytes-do-not-hash-to-stored-hash", where+fmt.Sprintf(": the follower accepted the block and stores, under hash %v (%s), bytes whose hash is different (stored data %x, delivered data %x)", V.Hash, key, sbData(sb), V.Data), rep)
+					hashMismatch = true
 				}
 			}
-			r.Count("other_blocks_accepted", 1)
-			callData(r, k.Block, V, v, "accepted-as-other-block")
-			fresh()
-			continue
-		}
-		stored := after[ident]
-		identical := stored != nil && bytes.Equal(stored, k.Bytes)
-		escNote := ""
-		// every other new pool entry (descendants stored on their own) must equal the producer's too
-		for key, val := range after {
-			if _, had := clean[key]; had || key == ident {
+			if hashMismatch {
+				fresh()
 				continue
 			}
-			sb, _ := nom.DeserializeAccountBlock(val)
-			pe := rec.ByHash[sb.Hash]
-			if pe == nil || !bytes.Equal(pe.Bytes, val) {
-				identical = false
+			if !sameHash || v.Flavor == "resign" {
+				// a different block (other hash) signed by the key holder, or one whose hash moved: not a second variant of B.
+				// What matters here is only the call-data question: is non-canonical call data stored?
+				st := after[fmt.Sprintf("%s/%d", V.Address, V.Height)]
+				r.Add("outcomes", class+":"+rootGroup(class, v)+"/"+v.Flavor+":other-block-accepted")
+				if strings.HasPrefix(v.Field, "Data-abi-same-args") && st != nil {
+					sb, _ := nom.DeserializeAccountBlock(st)
+					if !bytes.Equal(sb.Data, k.Block.Data) {
+						r.Violate("C13:user-call:non-canonical-call-data:accepted-and-stored", where+fmt.Sprintf(": a block signed by the account over call data %x (same decoded arguments as the canonical %x) was accepted and stored with the non-canonical bytes", V.Data, k.Block.Data), rep)
+					}
+				}
+				r.Count("other_blocks_accepted", 1)
+				callData(r, k.Block, V, v, "accepted-as-other-block")
+				fresh()
+				continue
 			}
-		}
-		// continue with the producer's chain
-		idx, ierr, ipan := f.InsertChain(wireBatch(rec.Batch[k.HP+1 : rec.H+1]))
-		r.Count("transitions", 1)
-		outcome := ""
-		switch {
-		case ipan != nil:
-			outcome = "follower-panics-on-producer-momentum"
-		case ierr != nil:
-			outcome = "follower-rejects-producer-momentum"
-		case f.FullDigest() != rec.Full[rec.H]:
-			outcome = "follower-store-differs-from-producer"
-		}
-		if outcome == "" {
-			// confirmed block bytes on the follower
-			st := f.Chain.GetFrontierMomentumStore()
-			cb, err := st.GetAccountBlockByHash(k.Block.Hash)
-			if err != nil || cb == nil || !bytes.Equal(mustSer(cb), k.Bytes) {
-				outcome = "confirmed-block-bytes-differ"
+			stored := after[ident]
+			identical := stored != nil && bytes.Equal(stored, k.Bytes)
+			escNote := ""
+			// every other new pool entry (descendants stored on their own) must equal the producer's too
+			for key, val := range after {
+				if _, had := clean[key]; had || key == ident {
+					continue
+				}
+				sb, _ := nom.DeserializeAccountBlock(val)
+				pe := rec.ByHash[sb.Hash]
+				if pe == nil || !bytes.Equal(pe.Bytes, val) {
+					identical = false
+				}
 			}
-		}
-		if identical && outcome == "" {
-			callData(r, k.Block, V, v, "accepted-and-stored-as-the-canonical-bytes")
-			r.Count("variants_accepted_normalised", 1)
-			r.Add("outcomes", class+":"+rootGroup(class, v)+"/"+v.Flavor+":accepted-normalised-identical")
-		} else {
+			// continue with the producer's chain
+			idx, ierr, ipan := f.InsertChain(wireBatch(rec.Batch[k.HP+1 : rec.H+1]))
+			r.Count("transitions", 1)
+			outcome := ""
+			switch {
+			case ipan != nil:
+				outcome = "follower-panics-on-producer-momentum"
+			case ierr != nil:
+				outcome = "follower-rejects-producer-momentum"
+			case f.FullDigest() != rec.Full[rec.H]:
+				outcome = "follower-store-differs-from-producer"
+			}
 			if outcome == "" {
-				outcome = "pooled-bytes-differ-until-confirmation"
-			}
-			r.Count("variants_accepted_divergent", 1)
-			r.Add("outcomes", class+":"+rootGroup(class, v)+"/"+v.Flavor+":accepted-divergent:"+outcome)
-			// the same second form handed to a producing node (once per field of each block)
-			if r.Add("escalated", fmt.Sprintf("%d/%d/%s", hi, k.Idx, rootGroup(class, v))) || only != "" {
-				eo, ew := escalate(c, rec, k, V)
-				r.Count("transitions", 3)
-				r.Count("escalations_run", 1)
-				r.Add("escalations", class+":"+rootGroup(class, v)+":"+eo)
-				if ew != "" {
-					escNote = "\nescalation: " + ew
-				}
-				if strings.Contains(eo, "balances-differ") {
-					// the same root cause observed through its effect on the ledger: one more key, for the effect
-					r.Violate("C13:"+class+":"+effectGroup(class, v)+"-altered:variant-confirmed-by-producer:fresh-node-accepts:balances-differ",
-						where+": "+ew, rep)
+				// confirmed block bytes on the follower
+				st := f.Chain.GetFrontierMomentumStore()
+				cb, err := st.GetAccountBlockByHash(k.Block.Hash)
+				if err != nil || cb == nil || !bytes.Equal(mustSer(cb), k.Bytes) {
+					outcome = "confirmed-block-bytes-differ"
 				}
 			}
-			what := where + escNote + fmt.Sprintf(": the follower accepted a second form of block %v (stored bytes equal the producer's: %v); then InsertChain of the producer's momentums %d..%d: idx=%d err=%v panic=%v; outcome %s",
-				k.Block.Hash, identical, k.HP+1, rec.H, idx, ierr, ipan, outcome)
-			r.Violate("C13:"+class+":"+keyGroup(class, v)+"-altered:variant-accepted:"+outcome, what, rep)
+			if identical && outcome == "" {
+				callData(r, k.Block, V, v, "accepted-and-stored-as-the-canonical-bytes")
+				r.Count("variants_accepted_normalised", 1)
+				r.Add("outcomes", class+":"+rootGroup(class, v)+"/"+v.Flavor+":accepted-normalised-identical")
+			} else {
+				if outcome == "" {
+					outcome = "pooled-bytes-differ-until-confirmation"
+				}
+				r.Count("variants_accepted_divergent", 1)
+				r.Add("outcomes", class+":"+rootGroup(class, v)+"/"+v.Flavor+":accepted-divergent:"+outcome)
+				// the same second form handed to a producing node (once per field of each block)
+				if r.Add("escalated", fmt.Sprintf("%d/%d/%s", hi, k.Idx, rootGroup(class, v))) || only != "" {
+					eo, ew := escalate(c, rec, k, V)
+					r.Count("transitions", 3)
+					r.Count("escalations_run", 1)
+					r.Add("escalations", class+":"+rootGroup(class, v)+":"+eo)
+					if ew != "" {
+						escNote = "\nescalation: " + ew
+					}
+					if strings.Contains(eo, "balances-differ") {
+						// the same root cause observed through its effect on the ledger: one more key, for the effect
+						r.Violate("C13:"+class+":"+effectGroup(class, v)+"-altered:variant-confirmed-by-producer:fresh-node-accepts:balances-differ",
+							where+": "+ew, rep)
+					}
+				}
+				what := where + escNote + fmt.Sprintf(": the follower accepted a second form of block %v (stored bytes equal the producer's: %v); then InsertChain of the producer's momentums %d..%d: idx=%d err=%v panic=%v; outcome %s",
+					k.Block.Hash, identical, k.HP+1, rec.H, idx, ierr, ipan, outcome)
+				r.Violate("C13:"+class+":"+keyGroup(class, v)+"-altered:variant-accepted:"+outcome, what, rep)
+			}
+			fresh()
 		}
-		fresh()
 	}
 	if only != "" {
 		return
